@@ -42,12 +42,27 @@ inline bool step_may_throw(const char* kind, int& budget)
     return false;
 }
 
+// Hostile overload: a payload type whose initializer_list constructor is viable from the type itself (like std::vector<std::any>
+// or JSON-like variants).  `T(x)` copies; `T{x}` would build a one-element wrapper instead - the poison value below.
+class Cell;
+struct CellListItem {
+    CellListItem(const Cell&) {}
+};
+
 class Cell {
   public:
     long a = 0, b = 0;
     int id;
     bool alive = true;
 
+    Cell(std::initializer_list<CellListItem>): a(-7), b(-7), id(++g_cell.nextId)
+    {
+        g_cell.live++;
+        log_ev("badinit", "cell", id, -7);
+    }
+
+    struct Temp {};  // a temporary made by the harness only to be moved from: takes no instance id
+    Cell(long v, Temp): a(v), b(v), id(0) { g_cell.live++; }
     explicit Cell(long v = 0): a(v), b(v), id(++g_cell.nextId)
     {
         g_cell.live++;
@@ -70,6 +85,29 @@ class Cell {
             a = o.a;
             b = o.b;
         }
+        return *this;
+    }
+    // moves look like copies to the observer but leave the source with a poison value (like a moved-from container): code
+    // that uses an object after forwarding / moving it shows up in the values
+    Cell(Cell&& o): id(++g_cell.nextId)
+    {
+        g_cell.live++;
+        if (loud()) {
+            copy_from(o, "kb", "ke");
+        } else {
+            a = o.a;
+            b = o.b;
+        }
+        o.a = o.b = -9;
+    }
+    Cell& operator=(Cell&& o)
+    {
+        if (loud()) copy_from(o, "cb", "ce");
+        else {
+            a = o.a;
+            b = o.b;
+        }
+        o.a = o.b = -9;
         return *this;
     }
     ~Cell()
@@ -138,11 +176,17 @@ class Cell {
 // Reg: a two-word register value whose accesses are observable only when they involve THE shared instance (the one the
 // wrapper holds): copy / move / assignment / comparison from the shared instance is a read window (rb, re) on it,
 // assignment to it a write window (cb, ce); operations among thread-local temporaries are silent.
+class Reg;
+struct RegListItem {
+    RegListItem(const Reg&) {}
+};
+
 class Reg {
   public:
     long a = 0, b = 0;
     bool shared = false;
     Reg() = default;
+    Reg(std::initializer_list<RegListItem>): a(-7), b(-7) { log_ev("badinit", "reg", 1, -7); }
     explicit Reg(long v, bool sh = false): a(v), b(v), shared(sh) {}
     Reg(const Reg& o) { take(o); }
     Reg(Reg&& o) noexcept { take(o); }
